@@ -187,7 +187,28 @@ func genC02Unify(r *rand.Rand, n int, tier string) []string {
 		if r.Intn(2) == 0 {
 			x, y = y, x
 		}
-		mode := pick(r, []string{"u", "u", "r", "o", "o", "f", "h", "h"})
+		mode := pick(r, []string{"u", "u", "r", "o", "o", "f", "h", "h", "m"})
+		if mode == "m" {
+			// a SEQUENCE of unifications X1 = Y1, ..., Xn = Yn over a small pool of variables, so that
+			// variables already aliased are unified again, in both directions
+			n := 2 + r.Intn(4)
+			g.nvars = 2 + r.Intn(3)
+			side := func() *gt {
+				as := make([]*gt, n)
+				for j := range as {
+					switch k := r.Intn(10); {
+					case k < 7:
+						as[j] = gVar(r.Intn(g.nvars))
+					case k < 8:
+						as[j] = gAtom(pick(r, c02Atoms))
+					default:
+						as[j] = gApp("f", gVar(r.Intn(g.nvars)))
+					}
+				}
+				return gApp("e", as...)
+			}
+			x, y = side(), side()
+		}
 		// clause heads whose argument is a string (double-quoted text: charList / codeList, compiled to a
 		// get_const) against the same list in every other encoding
 		strHead := mode == "h" && r.Intn(3) == 0
@@ -356,9 +377,16 @@ func (b *builder) build(t *gt) engine.Term {
 	case 'a': // append(Prefix, Suffix, L): the fast path yields a *partial over the prefix's encoding
 		k := 1 + (b.pos % len(elems))
 		var pre engine.Term
-		if allChars && b.pos%2 == 0 {
+		switch {
+		case allChars && b.pos%2 == 0:
 			pre = engine.CharList(string([]rune(sb.String())[:k]))
-		} else {
+		case b.pos%3 == 0:
+			// the prefix as a chain of generic '.'/2 compounds (canonical dot notation, =.., functor/3)
+			pre = atom("[]")
+			for i := k - 1; i >= 0; i-- {
+				pre = engine.Cons(elems[i], pre)
+			}
+		default:
 			pre = engine.List(elems[:k]...)
 		}
 		var suf engine.Term
@@ -493,6 +521,19 @@ func runC02Unify(payload string) string {
 		goal = compound(",", compound("unify_with_occurs_check", x, y), compound(";", compound("->", compound("==", x, y), compound("=", ident, atom("true"))), compound("=", ident, atom("false"))))
 	case "f":
 		goal = compound(";", compound("->", compound("=", x, y), compound("=", res, atom("yes"))), compound("=", res, atom("no")))
+	case "m":
+		// X1 = Y1, ..., Xn = Yn one after the other; identity observed by the built-in compare/3 (the
+		// goal after it only receives O and Ident)
+		xc, okx := x.(engine.Compound)
+		yc, oky := y.(engine.Compound)
+		if !okx || !oky || xc.Arity() != yc.Arity() {
+			return "BAD-CASE"
+		}
+		o := engine.NewVariable()
+		goal = compound(",", compound("compare", o, x, y), compound(";", compound("->", compound("=", o, atom("=")), compound("=", ident, atom("true"))), compound("=", ident, atom("false"))))
+		for k := xc.Arity() - 1; k >= 0; k-- {
+			goal = compound(",", compound("=", xc.Arg(k), yc.Arg(k)), goal)
+		}
 	case "h":
 		if err := solveOnce(&i.VM, compound("assertz", compound("c02_head", x))); err != "true" {
 			return "assert-" + err
